@@ -70,6 +70,33 @@ def c16(cx):
         if any(v != n for v in vals):
             cx.violations.append({'kind': 'int-literal', 'program': str(forms), 'prop': 'C16', 'field': 'int', 'where': str(n),
                                   'detail': f"spellings {forms} of {n} parse to {vals}", 'src': str(forms), 'env': None})
+    # every decimal immediate of every opcode sample, respelled in hex and octal (also with values >= 8, where octal and
+    # decimal differ): the instruction must be the one the decimal spelling gives
+    stats['immediate_spellings'] = 0
+    for l in pool:
+        w = l.split()
+        if not w or w[0] in ('int', 'pushint') or w[0].endswith(':') or w[0].startswith('#'): continue
+        for k in range(1, len(w)):
+            if not re.fullmatch(r'\d+', w[k]) or (len(w[k]) > 1 and w[k].startswith('0')): continue
+            for n in dict.fromkeys([int(w[k]), 8, 10, 15]):
+                dec = ' '.join(w[:k] + [str(n)] + w[k + 1:])
+                try:
+                    base, _, _ = quiet(parse_line, dec)
+                except BaseException:
+                    continue
+                if base is None or type(base).__name__ == 'UnsupportedInstruction': continue
+                want = (type(base).__name__, str(base))
+                for form in (hex(n), ('0' + oct(n)[2:]) if n else '0'):
+                    v = ' '.join(w[:k] + [form] + w[k + 1:])
+                    stats['immediate_spellings'] += 1
+                    try:
+                        got, _, _ = quiet(parse_line, v)
+                        g = (type(got).__name__, str(got)) if got is not None else None
+                    except BaseException as e:
+                        g = ('EXC', type(e).__name__)
+                    if g != want:
+                        cx.violations.append({'kind': 'int-literal', 'program': v, 'prop': 'C16', 'field': 'immediate', 'where': dec,
+                                              'detail': f"{v!r} parses to {g}, the decimal spelling {dec!r} to {want}", 'src': v, 'env': None})
     # byte literals: hex / base64 / base32 / quoted forms of the same bytes
     import base64
     for _ in range(100 if cx.quick() else 1500):
@@ -157,7 +184,7 @@ def c16(cx):
         bad = True
     if bad:
         cx.known_seen['F19'] = f"`method \"sig\"` prints as {str(f19)!r} (quotes dropped), which does not parse back"
-    cx.evaluations += stats['variants'] + stats['int_spellings'] + stats['byte_forms'] + stats['programs'] + stats['quoted_literals']
+    cx.evaluations += stats['variants'] + stats['int_spellings'] + stats['byte_forms'] + stats['programs'] + stats['quoted_literals'] + stats['immediate_spellings']
     for l in pool[:3000]:
         cx.distinct.add(l.split()[0] if l.split() else l)
     cx.samples += [{'line': pool[3], 'variants': list(variants(pool[3]))}, {'int spellings of 255': ['255', '0xff', '0377']}]
@@ -242,6 +269,20 @@ def c19(cx):
         shown = [c for c in b0.tealer_comments if c.startswith('block_id')]
         if b0.cost != want or not shown or f"cost = {want}" not in shown[0]:
             cx.violations.append({'kind': 'block-cost', 'program': src, 'prop': 'C19', 'field': 'cost', 'where': 'B0', 'detail': f"block cost {b0.cost} (comment {shown}), sum of opcode costs for v{v} is {want}", 'src': src, 'env': None})
+    # failing-input search for the table obligation C19_costs: the sample whose cost under some declared version differs from
+    # the specification table (Spec/CostTable.lean)
+    spec_costs = {}
+    for m in re.finditer(r'\("((?:[^"\\]|\\.)*)", "((?:[^"\\]|\\.)*)", (true|false), \[([\d, ]*)\]\)', open(os.path.join(HERE, '..', 'lean', 'TealerModel', 'Spec', 'CostTable.lean')).read()):
+        spec_costs[m.group(1).replace('\\"', '"').replace('\\\\', '\\')] = [int(x) for x in m.group(4).split(',') if x.strip()]
+    stats['cost_rows'] = 0
+    for l, costs in prow.items():
+        if l in spec_costs and spec_costs[l]:
+            stats['cost_rows'] += 1
+            for v, (got, want) in enumerate(zip(costs, spec_costs[l]), 1):
+                if got != want:
+                    cx.violations.append({'kind': 'opcode-cost', 'program': f"#pragma version {v}\n{l}\n", 'prop': 'C19', 'field': 'cost', 'where': l,
+                                          'detail': f"`{l}` under `#pragma version {v}` is given cost {got}; the AVM cost (specification table) is {want}", 'src': f"#pragma version {v}\n{l}\n", 'env': None})
+                    break
     sha3 = prow.get('sha3_256')
     if sha3 and sha3[-1] != 130:
         cx.known_seen['F18'] = f"sha3_256 cost is reported as {sha3[-1]} (AVM: 130)"
